@@ -125,9 +125,9 @@ def cases(rng, tier):
             pass
         elif mode < 0.70:
             payload["mode"] = "none_preset"
-        elif mode < 0.75:
+        elif mode < 0.78:
             payload["mode"] = "none_unset"
-        elif mode < 0.80:
+        elif mode < 0.82:
             payload["mode"] = "map_out_of_range"
         elif mode < 0.84:
             payload["mode"] = "map_len"
@@ -166,8 +166,10 @@ def _materialise(payload):
             for g in d:
                 instrs[g]["basis_id"] = m
         if ids:
-            d = rng.choice(ids)
-            instrs[d[0]]["basis_id"] = None
+            # any member of a decomposition may be the unset one (first- or last-listed half of a pair)
+            pairs = [d for d in ids if len(d) == 2]
+            d = rng.choice(pairs) if pairs and rng.random() < 0.6 else rng.choice(ids)
+            instrs[d[rng.randrange(len(d))]]["basis_id"] = None
         map_ids = None
     elif mode == "map_out_of_range" and ids:
         k = rng.randrange(len(ids))
